@@ -122,7 +122,7 @@ func engineOfProp(prop string) string {
 // DefaultCount is the number of runs per tier (calibrated so that quick takes ~20-30 s
 // and thorough ~10-12 min on 16 cores).
 func DefaultCount(prop, tier string) uint64 {
-	q := map[string]uint64{"C01": 140000, "C02": 15000, "C03": 40000, "C05": 150000, "C11": 110000, "C17": 12000, "C18": 25000}
+	q := map[string]uint64{"C01": 160000, "C02": 24000, "C03": 52000, "C05": 180000, "C11": 125000, "C17": 12000, "C18": 25000}
 	t := map[string]uint64{"C01": 6000000, "C02": 600000, "C03": 1200000, "C05": 6000000, "C11": 4500000, "C17": 400000, "C18": 800000}
 	if tier == "thorough" {
 		return t[prop]
